@@ -2,6 +2,7 @@ package gosym
 
 import (
 	"go/types"
+	"strconv"
 	"strings"
 
 	"golang.org/x/tools/go/ssa"
@@ -28,6 +29,8 @@ type adAttr struct {
 	s       StrV
 	i       *Term
 	b       *Term
+	nameV    StrV
+	symbolic bool
 }
 
 type adModel struct {
@@ -54,10 +57,32 @@ func (in *Interp) adOf(v Value) *adModel {
 	return mo.Data.(*adModel)
 }
 
+// foldEq: case-insensitive (ASCII) equality of two attribute names.
+func (in *Interp) foldEq(a, b StrV) *Term {
+	return in.strEq(in.mapBytes(a, in.lowerByte), in.mapBytes(b, in.lowerByte))
+}
+
 func (in *Interp) adFind(ad *adModel, name string, create bool) *adAttr {
 	ln := strings.ToLower(name)
+	isSym := strings.HasPrefix(name, "\x00sym")
+	var nv StrV
+	if isSym {
+		nv = in.symNames[name]
+	} else {
+		nv = in.strConst(name)
+	}
 	for _, a := range ad.attrs {
-		if a.lname == ln {
+		if !isSym && !a.symbolic {
+			if a.lname == ln {
+				return a
+			}
+			continue
+		}
+		eq := in.foldEq(a.nameV, nv)
+		if eq.IsFalse() {
+			continue
+		}
+		if in.branch(eq) {
 			return a
 		}
 	}
@@ -65,7 +90,10 @@ func (in *Interp) adFind(ad *adModel, name string, create bool) *adAttr {
 		return nil
 	}
 	tb := in.tb
-	a := &adAttr{name: name, lname: ln}
+	a := &adAttr{name: name, lname: ln, nameV: nv, symbolic: isSym}
+	if ad.open && isSym {
+		panic("peer ad queried with a symbolic attribute name")
+	}
 	if ad.open {
 		base := ad.name + "." + name
 		a.present = tb.Sym(base+".p", SBool)
@@ -128,9 +156,45 @@ func (in *Interp) adSet(ad *adModel, name string, v Value, t types.Type) {
 func (in *Interp) nameArg(v Value) string {
 	s, ok := in.concreteStr(v.(StrV))
 	if !ok {
-		panic("ClassAd attribute name must be concrete")
+		// symbolic attribute name: hand out a token that adFind resolves
+		if in.symNames == nil {
+			in.symNames = map[string]StrV{}
+		}
+		tok := "\x00sym" + strconv.Itoa(len(in.symNames))
+		in.symNames[tok] = v.(StrV)
+		return tok
 	}
 	return s
+}
+
+// adExprString renders an attribute's value the way the library unparses
+// simple literals.
+func (in *Interp) adExprString(a *adAttr) StrV {
+	if !a.kind.IsConst() {
+		panic("Expr.String on an attribute of symbolic kind")
+	}
+	switch a.kind.V {
+	case adStr:
+		return in.strConcat(in.strConcat(in.strConst("\""), a.s), in.strConst("\""))
+	case adInt:
+		return in.digitsOf(a.i, true)
+	case adBool:
+		return tb2str(in, a.b)
+	}
+	return in.strConst("undefined")
+}
+
+func tb2str(in *Interp, b *Term) StrV {
+	if b.IsConst() {
+		if b.V == 1 {
+			return in.strConst("true")
+		}
+		return in.strConst("false")
+	}
+	if in.branch(b) {
+		return in.strConst("true")
+	}
+	return in.strConst("false")
 }
 
 func registerClassAdNatives(in *Interp) {
@@ -206,6 +270,13 @@ func registerClassAdNatives(in *Interp) {
 		o := in.newObj(in.newModel("adexpr", a), nil, "expr")
 		return TupleV{Ptr{Obj: o}, a.present}
 	}
+	n["(*github.com/PelicanPlatform/classad/classad.Expr).String"] = func(in *Interp, fn *ssa.Function, args []Value) Value {
+		p := args[0].(Ptr)
+		if p.Obj == nil {
+			in.nilDeref()
+		}
+		return in.adExprString(p.Obj.Val.(*ModelObj).Data.(*adAttr))
+	}
 	n[M+"Delete"] = func(in *Interp, fn *ssa.Function, args []Value) Value {
 		ad := in.adOf(args[0])
 		a := in.adFind(ad, in.nameArg(args[1]), ad.open)
@@ -231,10 +302,10 @@ func registerClassAdNatives(in *Interp) {
 		var names []Value
 		for _, a := range ad.attrs {
 			if a.present.IsTrue() {
-				names = append(names, in.strConst(a.name))
+				names = append(names, a.nameV)
 			} else if !a.present.IsFalse() {
 				if in.branch(a.present) {
-					names = append(names, in.strConst(a.name))
+					names = append(names, a.nameV)
 				}
 			}
 		}
